@@ -255,3 +255,28 @@ class SiteWorld:
         species = [Species(x) if isinstance(x, str) else x for x in species]
         return Trajectory(species=species, coords=coords, lattice=self.lattice, time_step=time_step,
                           metadata={'temperature': temperature})
+
+
+def perturb(traj, rng, p=0.6):
+    """Read-only queries that switch the internal representation of a Trajectory (positions <-> displacements) or derive
+    objects from it.  By C15 none of them may change what any later analysis returns, so drivers sprinkle them between the
+    construction of a trajectory and the call under test."""
+    if rng.random() > p:
+        return traj
+    for _ in range(int(rng.integers(1, 4))):
+        k = int(rng.integers(0, 7))
+        if k == 0:
+            traj.positions
+        elif k == 1:
+            traj.displacements
+        elif k == 2:
+            traj.mean_squared_displacement()
+        elif k == 3:
+            traj.distances_from_base_position()
+        elif k == 4 and len(traj) > 2:
+            traj[1:len(traj) - 1]
+        elif k == 5:
+            traj.filter(traj.species[0].symbol)
+        elif k == 6:
+            traj.cumulative_displacements
+    return traj
